@@ -451,24 +451,72 @@ _PURITY_MUTATORS = {"append", "extend", "insert", "pop", "remove", "clear", "upd
 
 
 def param_mutations(func, p):
-    """In-place changes of the object passed as parameter `p`, through the parameter or a name that may alias it
-    (`x = p`, flow-insensitive).  -> [(node, alias name, description)].  Re-binding a name is not a change."""
+    """In-place changes of the object passed as parameter `p`, through the parameter or a name that may alias it.
+    Path-sensitive on the statement CFG: a change through name X counts only if a binding of X to the parameter object
+    (the parameter itself at entry, or `X = <alias>`) reaches the change without X being re-bound on the way.
+    -> [(node, alias name, description)].  Re-binding a name is not a change."""
+    from .cfg import CFG
+    g = CFG(func)
     aliases = {p}
+    alias_assigns = {}      # name -> [Assign statements `name = <alias>`]
     grew = True
     while grew:
         grew = False
         for n in walk_local(func):
             if isinstance(n, ast.Assign) and isinstance(n.value, ast.Name) and n.value.id in aliases:
                 for t in n.targets:
-                    if isinstance(t, ast.Name) and t.id not in aliases:
-                        aliases.add(t.id)
-                        grew = True
+                    if isinstance(t, ast.Name):
+                        if n not in alias_assigns.setdefault(t.id, []):
+                            alias_assigns[t.id].append(n)
+                        if t.id not in aliases:
+                            aliases.add(t.id)
+                            grew = True
+
+    def rebinds(name):
+        out = set()
+        for n in walk_local(func):
+            tg = []
+            if isinstance(n, ast.Assign):
+                tg = [x for t in n.targets for x in ast.walk(t)]
+            elif isinstance(n, (ast.AugAssign, ast.AnnAssign)):
+                tg = [n.target] if not isinstance(n, ast.AugAssign) else []
+            elif isinstance(n, (ast.For, ast.With)):
+                tg = list(ast.walk(n.target)) if isinstance(n, ast.For) else [x for it_ in n.items if it_.optional_vars is not None for x in ast.walk(it_.optional_vars)]
+            if any(isinstance(x, ast.Name) and x.id == name and isinstance(x.ctx, ast.Store) for x in tg):
+                nd = g.node_of(n)
+                if nd is not None:
+                    out.add(nd.id)
+        return out
+
+    def reaches(name, site):
+        sn = g.node_of(enclosing_stmt(site))
+        if sn is None:
+            return True
+        rb = rebinds(name)
+        starts = []
+        if name == p:
+            starts.append((g.entry, rb))
+        for a in alias_assigns.get(name, []):
+            an = g.node_of(a)
+            if an is not None:
+                if an.id == sn.id:
+                    return True
+                starts.append((an, rb - {an.id}))
+        for start, avoid in starts:
+            if sn.id in avoid:
+                avoid = avoid - {sn.id}
+            if g.reach_avoiding(start, {sn.id}, avoid) is not None:
+                return True
+        return False
     out = []
     for x in walk_local(func):
+        hit = None
         if isinstance(x, ast.Subscript) and isinstance(x.ctx, (ast.Store, ast.Del)) and isinstance(x.value, ast.Name) and x.value.id in aliases:
-            out.append((x, x.value.id, f"`{norm(enclosing_stmt(x))[:60]}` assigns / deletes items of `{x.value.id}`"))
+            hit = (x.value.id, f"`{norm(enclosing_stmt(x))[:60]}` assigns / deletes items of `{x.value.id}`")
         elif isinstance(x, ast.AugAssign) and isinstance(x.target, ast.Name) and x.target.id in aliases:
-            out.append((x, x.target.id, f"`{norm(x)[:60]}` extends `{x.target.id}` in place"))
+            hit = (x.target.id, f"`{norm(x)[:60]}` extends `{x.target.id}` in place")
         elif isinstance(x, ast.Call) and isinstance(x.func, ast.Attribute) and x.func.attr in _PURITY_MUTATORS and isinstance(x.func.value, ast.Name) and x.func.value.id in aliases:
-            out.append((x, x.func.value.id, f"`{norm(x)[:60]}` mutates `{x.func.value.id}`"))
+            hit = (x.func.value.id, f"`{norm(x)[:60]}` mutates `{x.func.value.id}`")
+        if hit and reaches(hit[0], x):
+            out.append((x, hit[0], hit[1]))
     return out
